@@ -73,6 +73,8 @@ pub fn family() -> Vec<(String, Cfg, bool)> {
         c.modes[0].pats[0] = CPat::new("[\\p{Foo}a]", 0);
         c.modes[0].pats[2].la = Some((false, "a$".into()));
     }, false);
+    add("syntax error in a third mode no transition leads to", &|c| c.modes.push(CMode { name: "THIRD".into(), pats: vec![CPat::new("c(", 0)], transitions: vec![] }), false);
+    add("third mode no transition leads to, with a transition back", &|c| c.modes.push(CMode { name: "THIRD".into(), pats: vec![CPat::new("c", 0), CPat::new("[ab]", 4)], transitions: vec![(0, 0)] }), true);
     v.push(("no modes at all".into(), Cfg { modes: vec![] }, true));
     v.push(("one mode without patterns".into(), Cfg { modes: vec![CMode { name: "INITIAL".into(), pats: vec![], transitions: vec![] }] }, true));
     v.push(("unrelated".into(), Cfg::single(vec![CPat::new("c+", 0), CPat::new("[ab]", 1)]), true));
@@ -114,8 +116,12 @@ fn behaviour(sc: &Scanner, ins: &[String]) -> Behaviour {
         streams: ins
             .iter()
             .filter(|_| sc.mode_name(0).is_some())
-            .map(|i| {
+            .flat_map(|i| (0..4usize).filter(|k| sc.mode_name(*k).is_some()).map(move |k| (i, k)))
+            .map(|(i, start_mode)| {
+                // from every start mode (set_mode on the iterator): modes no transition leads to are
+                // part of the configuration as well
                 let mut it = sc.find_iter(i);
+                it.set_mode(start_mode);
                 let mut v = vec![];
                 // what peek_n(3) announces before every token is part of the behaviour (encoded into
                 // the stream as a pseudo token with type usize::MAX and a hash of the peek result)
@@ -142,9 +148,10 @@ fn diff(a: &Behaviour, b: &Behaviour, ins: &[String]) -> String {
     if a.names != b.names {
         return format!("mode names {:?} vs {:?}", a.names, b.names);
     }
+    let n_modes = a.names.iter().filter(|n| n.is_some()).count().max(1);
     for (k, (x, y)) in a.streams.iter().zip(b.streams.iter()).enumerate() {
         if x != y {
-            return format!("on input {:?} the cached scanner yields (type,start,end,mode after) {:?}, the uncached one {:?}", ins[k], x, y);
+            return format!("on input {:?}, started in mode {} by set_mode, the cached scanner yields (type,start,end,mode after) {:?}, the uncached one {:?}", ins[k / n_modes], k % n_modes, x, y);
         }
     }
     "?".into()
@@ -392,7 +399,8 @@ pub fn run(tier: Tier) -> ! {
         });
         match r {
             Ok((Ok(simple), Ok(other))) => {
-                if Some(&simple) != expected[twin].as_ref() || Some(&other) != expected[twin + 1].as_ref() {
+                let same = |a: &Behaviour, b: Option<&Behaviour>| b.is_some_and(|b| a.names == b.names && a.streams == b.streams);
+                if !same(&simple, expected[twin].as_ref()) || !same(&other, expected[twin + 1].as_ref()) {
                     viol.add("", || Violation { key: String::new(), summary: "add_patterns([\"a\",\"b\"]).build() and its near twin do not behave like their uncached builds".into(), replay: json!({"calls": ["cache_clear()", if order { "build() of the twin" } else { "-" }, "ScannerBuilder::new().add_patterns([\"a\",\"b\"]).build()", "build() of the same patterns with token types 1,0"]}) });
                 }
             }
@@ -451,6 +459,35 @@ pub fn run(tier: Tier) -> ! {
         }
     }
     n_trans += long_builds;
+    // the same configuration built again and again (hit counters, reference counts, recency lists):
+    // 70 000 builds of one member, every one compared on one input, then the other members once more
+    let mut repeat_builds = 0usize;
+    {
+        let unrelated = fam.iter().position(|f| f.0 == "unrelated").unwrap();
+        let want: Vec<(usize, usize, usize)> = vec![(1, 0, 1), (0, 1, 3), (1, 3, 4)];
+        for k in 0..70_000usize {
+            repeat_builds += 1;
+            let r = catch(|| fam[unrelated].1.build_cached().map(|sc| sc.find_iter("acca").map(|m| bridge::tok(&m)).collect::<Vec<_>>()));
+            if !matches!(&r, Ok(Ok(v)) if *v == want) {
+                viol.add("", || Violation { key: String::new(), summary: format!("build #{} of one and the same configuration gives {:?}, expected tokens {want:?}", k + 1, r.as_ref().map(|x| x.as_ref().map_err(|e| e.to_string()))).chars().take(400).collect(), replay: json!({"configuration": fam[unrelated].1.to_json(), "calls": [format!("build() {} times", k + 1), "find_iter(\"acca\").collect()"]}) });
+                break;
+            }
+        }
+        for (i, (label, cfg, ok)) in fam.iter().enumerate() {
+            repeat_builds += 1;
+            let r = catch(|| cfg.build_cached().map(|sc| behaviour(&sc, &ins)));
+            let good = match (&r, ok) {
+                (Ok(Ok(b)), true) => expected[i].as_ref().is_some_and(|w| w.names == b.names && w.streams == b.streams),
+                (Ok(Err(_)), false) => true,
+                _ => false,
+            };
+            if !good {
+                viol.add("", || Violation { key: String::new(), summary: format!("after 70 000 builds of one configuration, build() of family member {label:?} no longer behaves like its uncached build ({})", match &r { Err(p) => format!("panic: {p}"), Ok(Err(e)) => format!("error: {e}"), Ok(Ok(_)) => "other behaviour".into() }).chars().take(400).collect(), replay: json!({"calls": ["build() of the member `unrelated` 70 000 times", format!("build() of {label:?}")], "configuration": cfg.to_json()}) });
+                break;
+            }
+        }
+    }
+    n_trans += repeat_builds;
     // the simple builder: pattern lists whose texts are equal when joined (`a|b`,`c` / `a`,`b|c` /
     // `a|b|c` / `a`,`b`,`c`), and lists that differ in order only, built through add_patterns().build()
     // in every order; each must behave like the uncached build of its documented equivalent (one
@@ -551,6 +588,8 @@ pub fn run(tier: Tier) -> ! {
     cov.insert("transitions_where_cached_and_uncached_automata_differ_structurally_(informational)".into(), json!(dump_differs));
     cov.insert("long_history".into(), json!({"distinct_configurations": n_long, "build_calls": long_builds, "shape": "no clear; after every build the first, middle and previous configuration again; all of them at every power of two +-1 below 5000 and at the end forwards and backwards"}));
     cov.insert("builds_compared_directly_after_a_failing_build".into(), json!(after_failure));
+    cov.insert("repeated_builds_of_one_configuration".into(), json!({"build_calls": repeat_builds, "shape": "70 000 consecutive build() calls of one member, each scanned; then every family member once more"}));
+    cov.insert("comparison".into(), json!("mode names and, for every input and every start mode (set_mode on the iterator, so that modes no transition leads to are compared as well), the stream of (type, span, mode after) with the peek_n(3) result before every token"));
     cov.insert("large_configurations_through_the_cache_(child_process)".into(), large);
     cov.insert("cache_hits".into(), json!(hits));
     cov.insert("cache_misses".into(), json!(misses));
